@@ -7,7 +7,12 @@
     D1 walker class declaration / lookup histories vs run_walkers (search order, per-class cache, __init_subclass__).
 (c) oracle on the implementation: generated annotated grammars x inputs, model parse vs plain parse;
     W1 walker declaration / use histories: the handler of every node is the nearest walk_ method of the walker class,
-    whatever was declared or walked before; traversal orders, post-order children argument, walk() results.
+    whatever was declared or walked before; traversal orders, post-order children argument, walk() results;
+    catch-all probe (walk_Node + walk_object of docs/models.rst).
+    H1 forest grammars: the classes of all rules form one declared forest (a rule's class as the base of another rule's
+    class, rule-less classes shared by several chains, chains that stop at a class whose base another rule declares,
+    two rules building one class, shuffled rule order): the classes of the generated model module have exactly the
+    declared ancestors (static, no parse), and the O1 / N2 / B1 / W1 / D1 checks run on these grammars too.
 """
 from __future__ import annotations
 
@@ -337,7 +342,7 @@ RISKY_ATTRS = {
 }
 RISKY_CLASSES = {'synth-module-global': ['Any', 'types', 'annotations', 'synthesize'],
                  'synth-module-class': ['BaseNode', 'SynthNode']}
-RISKY_SHAPES = ['typed-rule-over-untyped-named-ast']
+RISKY_SHAPES = ['typed-rule-over-untyped-named-ast', 'nameless-rule-class-below-class-with-fields']
 FIXED_SENTENCES = ['(1,a)', '((1,2),[a (b,3)])', '-(1,2)', '[(a,b) -c]', '(-a,(b,c)) 7']
 BUILTINS = ['int', 'float', 'str', 'bool']
 HIER_EXTRA = ['B1', 'B2', 'Root', 'Mid']
@@ -354,6 +359,8 @@ class GrammarCase:
         self.tag = f'{RUN}G{idx}x'
         self.used_attrs: list[str] = []
         self.plan: dict = {}
+        self.stop_at_base: set = set()
+        self.whole_chain: set = set()
         self.build()
         self.read_declarations()
 
@@ -381,10 +388,22 @@ class GrammarCase:
             cands = [p for p in order[:i] if depth[p] < 3]
             if c in rule_classes and c not in named:
                 cands = [p for p in cands if not fields[p]]
-            p = rng.choice(cands) if cands and rng.random() < 0.75 else None
+            # (candidates that have a base themselves and classes that no rule builds count twice: chains of three and
+            # four classes and shared rule-less bases are wanted)
+            cands = cands + [p for p in cands if parent[p]] + [p for p in cands if p in HIER_EXTRA]
+            p = rng.choice(cands) if cands and rng.random() < 0.85 else None
             parent[c] = p
             depth[c] = 0 if p is None else depth[p] + 1
             fields[c] = c in named or (p is not None and fields[p])
+        # a rule-less class with a base is interesting when several rules derive from it (shared base): adopt a
+        # free rule class (no base, no derived class) where only one rule does
+        for m in HIER_EXTRA:
+            kids = [c for c in rule_classes if parent[c] == m]
+            if parent[m] and len(kids) == 1 and depth[m] < 3:
+                free = [c for c in rule_classes if parent[c] is None and c not in parent.values()
+                        and (c in named or not fields[m])]
+                if free:
+                    parent[rng.choice(free)] = m
         return parent
 
     def spec(self, base, allow_chain=True):
@@ -396,8 +415,14 @@ class GrammarCase:
                 full.append(self.plan[full[-1]])
             k = len(full)
             r = self.rng.random()
-            if k > 1 and r >= 0.45:
-                k = 2 if r < 0.8 else (1 if r < 0.9 else self.rng.randint(1, k))
+            if base in self.stop_at_base:
+                k = 2
+            elif base in self.whole_chain:
+                pass
+            elif k == 2 and r >= 0.85:
+                k = 1
+            elif k > 2 and r >= 0.3:
+                k = 2 if r < 0.75 else (1 if r < 0.85 else self.rng.randint(2, k))
             return '::'.join(self.cname(n) for n in full[:k])
         # every intermediate class is always declared with the same bases inside one grammar
         # (B1 under Root, B2 directly under the base type); redeclaration is the subject of R1
@@ -416,8 +441,11 @@ class GrammarCase:
         self.item_typed = rng.random() < 0.4
         self.group_style = rng.choice(['bare', 'named', 'override', 'namedlist'])
         self.neg_typed = rng.random() < 0.3 or self.item_typed
-        if self.risky and self.risky[0] == 'shape':
+        if self.risky and self.risky[0] == 'shape' and self.risky[1] == 'typed-rule-over-untyped-named-ast':
             self.item_typed, self.neg_typed = True, False
+        below_fields = bool(self.risky and self.risky[0] == 'shape' and self.risky[1] == 'nameless-rule-class-below-class-with-fields')
+        if below_fields:
+            self.group_style = 'bare'
         self.word_typed = rng.random() < 0.7
         self.have_opt = rng.random() < 0.8
         self.have_wrap = rng.random() < 0.7
@@ -437,6 +465,19 @@ class GrammarCase:
             named = {'Pair', 'Neg', 'Opt', 'Wrap'} | ({'Prog'} if self.start_named else set()) \
                 | ({'Group'} if self.group_style in ('named', 'namedlist') else set())
             self.plan = self.plan_forest([c for c, t in typed.items() if t], named)
+            # rules whose chain certainly stops at the direct base although that base has a base of its own: one
+            # below the class of another rule, one below a class that no rule builds (when the forest has them)
+            deep = [c for c, t in typed.items() if t and self.plan.get(c) and self.plan.get(self.plan[c])]
+            self.stop_at_base = set()
+            for rule_base in (True, False):
+                cands = [c for c in deep if bool(typed.get(self.plan[c])) == rule_base]
+                if cands:
+                    c = rng.choice(cands)
+                    self.stop_at_base.add(c)
+                    # ... and a sibling that writes its whole chain (somebody has to declare the base's base)
+                    sibs = [x for x in typed if typed[x] and x != c and self.plan.get(x) == self.plan[c]]
+                    if sibs and not rule_base:
+                        self.whole_chain.add(rng.choice(sibs))
         self.attrs = dict(items=a_items, l=a_l, r=a_r, el=a_el, a=a_a, b=a_b, c=a_c, v=a_v, inner=a_in)
         # named elements per class (base names) of the typed rules
         self.rule_attrs = {'Pair': {a_l, a_r}, 'Opt': {a_a, a_b, a_c}}
@@ -467,6 +508,9 @@ class GrammarCase:
         lines.append(f'item{it} = ' + ' | '.join(alts) + ' ;')
         lines.append(f"pair::{pair_spec} = '(' {a_l}:item ',' {a_r}:item ')' ;")
         gs = self.spec('Group')
+        if below_fields:
+            # the class of a rule WITHOUT named elements derives from the class of a rule WITH named elements
+            gs = f'{self.cname("Group")}::{pair_spec}'
         if self.group_style == 'bare':
             lines.append(f"group::{gs} = '[' {{ item }} ']' ;")
         elif self.group_style == 'named':
@@ -1704,6 +1748,47 @@ def witness_dispatch(chk: Check):
                    '(C07_dispatch_multiple_inheritance_order)', 'witness', seen == ['walk_BaseNode', 'walk_Node'], str(seen))
 
 
+def declared_depth(cls):
+    n = 0
+    for c in cls.__mro__:
+        if c is Node:
+            break
+        if c.__name__ not in ('ModelBase', 'SynthNode'):
+            n += 1
+    return n
+
+
+def catch_all_probe(chk: Check, gc, wpool):
+    """docs/models.rst: "If a walk method for a node class is not found, then a method for the class's bases is
+    searched.  That makes is possible to write catch-all methods such as walk_Node ... walk_object" - a walker with both
+    must hand every Node to walk_Node, however long the declared chain of the node's class is.  Returns whether a tree
+    has a class with four or more declared classes below Node."""
+    deep = False
+    for text, root, family in wpool:
+        log: list = []
+
+        class CatchAll(DepthFirstWalker):
+            def walk_Node(self, node, *args, **kwargs):
+                log.append((node, 'walk_Node'))
+
+            def walk_object(self, node, *args, **kwargs):
+                log.append((node, 'walk_object'))
+        CatchAll().walk(root)
+        chk.count('W1.catch-all-probes')
+        seen = set()
+        for node, m in log:
+            d = declared_depth(type(node))
+            deep = deep or d >= 4
+            if m != 'walk_Node' and isinstance(node, Node) and (d, family) not in seen:
+                seen.add((d, family))
+                chk.violation(f'walk-dispatch:catch-all:walk_object-before-walk_Node:{family}:declared-chain-of-{min(d, 4)}{"+" if d >= 4 else ""}',
+                              f'a walker with walk_Node and walk_object hands a {family} node whose class has {d} declared '
+                              f'classes below Node to walk_object',
+                              {'oracle': 'W1 catch-all probe (docs/models.rst)', 'grammar': gc.text, 'input': text,
+                               'node_class': type(node).__name__, 'node_mro': [c.__name__ for c in type(node).__mro__]})
+    return deep
+
+
 def run_dispatch(chk: Check, gc, wpool, nhist, d1_batch):
     """wpool: [(text, root, family)] model trees of the grammar gc (synthesized and generated classes)"""
     rng = chk.rng
@@ -1718,7 +1803,9 @@ def run_dispatch(chk: Check, gc, wpool, nhist, d1_batch):
                     names_.append(c.__name__)
     universe = sorted(names_) + ['Node', 'Node']
     graphs = [class_graph(t) for t in trees]
-    if rng.random() < 0.3:
+    deep = catch_all_probe(chk, gc, wpool)
+    if rng.random() < 0.3 and not deep:
+        # (with four or more declared classes below Node the catch-all probe above owns the walk_object question)
         universe.append('object')
     # every class of the MROs (BaseNode, SynthNode, ModelBase, JSONBase, AsJSONMixin, object ...): for these the order is
     # the code's own stack walk, checked against ObjModel.search only (D1), not against the nearest-first oracle
@@ -1781,7 +1868,11 @@ def main():
                 'strings, _private and BaseNode-member-named attributes, vars() order != field order; O1/N2/B1: generated '
                 'grammars (start/item/pair/group/num/word/neg/opt/wrap/tup with random annotations: none, single, A::B, '
                 'A::B::C, builtin int/float/str/bool/tuple; named, unnamed, override and named-list bodies) x generated '
-                'sentences; one grammar per risky attribute/class name (dict members, ast, Node properties, BaseNode '
+                'sentences; H1: forest grammars over the same rules - every typed rule\'s class and the rule-less classes '
+                'B1 B2 Root Mid form one random forest (depth <= 4; rule classes below rule classes, shared rule-less bases), '
+                'every rule writes a prefix of its class\'s chain (whole, class::base, bare, in between; at least one chain '
+                'stops at a class whose base is declared elsewhere), two rules may build one class, rule order shuffled; '
+                'one grammar per risky attribute/class name (dict members, ast, Node properties, BaseNode '
                 'members, children, _private, synth-module globals); R1: random declaration histories over 4 names; '
                 'W1/D1: per grammar, random histories of walker class declarations (below DepthFirst/PostOrder/BreadthFirst/'
                 'NodeWalker or below an earlier, possibly already used, class; mixins; walk_<Class> / walk__<snake> / '
@@ -1796,10 +1887,16 @@ def main():
                     'not modelled: dataclass machinery, BoundCallable argument binding, parseinfo/ctx',
                     'W1 oracle (own Python code): snake(), method_forms(), nearest-class resolution over type(node).__mro__, '
                     'own pre/post/level-order traversals over children(); D1 oracle tables: util.pythonize_name per class '
-                    'name, dir(walker class) callables named walk_*/_walk_*, __bases__ of the node classes']
+                    'name, dir(walker class) callables named walk_*/_walk_*, __bases__ of the node classes',
+                    'H1 oracle (own Python code, implementation-only: the model generator is not modelled in Coq): the chains '
+                    'read back from the grammar text, declared base = successor of a name in any chain, ancestors by '
+                    'following it; generated classes found by name in the exec\'d module, compared through __mro__/__bases__']
     chk.assumptions += ['setord is a permutation of its input minus vars(BaseNode) names (Python set semantics)',
                         'vars(node) keys are distinct (dict) and node identities in a tree are distinct (tree-shaped) for the exactly-once statements',
                         'parent pointers are those present after children() has run on the parent (the code assigns them lazily there)',
+                        'forest grammars declare one base per class name (consistent chains); their synthesized classes are '
+                        'declared once with the whole chain before the first parse (first synthesis wins: D14a, tested by R1), and a '
+                        'generated class may carry the None-valued fields it inherits from the class of another rule',
                         'walker classes get no new walk_ methods after their class statement (no monkeypatching): [has w] is fixed; '
                         'C07_dispatch_cache_transparent assumes that same-named node classes resolve alike (cache keyed by __qualname__)']
     st = chk.coq()
